@@ -287,7 +287,7 @@ func scriptForGenerated(cfg EngineCfg) *hashScript {
 func genEngineScenarios(seed int64, count int, mode string, emit func(cfg EngineCfg, src string, evs []Event)) {
 	r := rand.New(rand.NewSource(seed))
 	p := paramsFor(mode)
-	for i := 0; i < count; i++ {
+	for i := 0; i < count && !tooManyHangs(); i++ {
 		cfg := genEngineCfg(r, p)
 		cfg.GenSeed = fmt.Sprintf("%d", r.Uint64())
 		cfg.GenMode = mode
